@@ -87,8 +87,11 @@ def lists(g, conn):
 # ----------------------------------------------------------------------------------------- hashes
 HF = hx(b"hf")                          # the only key HINCRBYFLOAT is sent to: its fields only ever hold
 HF_FIELDS = [hx(b"f1"), hx(b"f2")]     # integer text or plainly non-numeric text (model's float fragment)
-HF_VALUES = [b"0", b"5", b"-3", b"+5", b"007", b"12a", b"", b"99", b"abc"]
-HF_DELTAS = [b"1", b"-1", b"2", b"10", b"(3", b"(-2", b"0", b"abc", b"", b"(", b"1x"]
+HF_VALUES = [b"0", b"5", b"-3", b"+5", b"007", b"12a", b"", b"99", b"abc", b"0.1", b"1e3", b"-.5", b"5.", b"1e400", b"1e-400", b"0.1e1", b"1_000",
+             b"inf", b"-Infinity", b"1.7976931348623157e308", b"9007199254740993", b"0.30000000000000004", b"4.9e-324", b"1E5", b"-0", b"nan"]
+HF_DELTAS = [b"1", b"-1", b"2", b"10", b"(3", b"(-2", b"0", b"abc", b"", b"(", b"1x", b"0.1", b"0.2", b"1e-3", b"3.0e3", b"-.5", b"5.", b"1e400",
+             b"1e-400", b"0.1e1", b"0.30000000000000004", b"1e16", b"1e300", b"-1e300", b"1.7976931348623157e308", b"5e-324", b"(0.25", b"1_000",
+             b"1e", b".", b"nan", b"inf", b"123456.789"]
 
 
 def hashes(g, conn):
